@@ -77,6 +77,7 @@ MOVE_NEXT = dict(
         "self.driver_actor.on_task_finished": dict(event="on_task_finished"),
         "time.perf_counter": dict(returns="real"),
         "self.driver_actor.drive_at": dict(event="drive_at"),
+        "self.post_process_samples": dict(event="post_process"),  # not called here today; if it ever is, it shows up in the event trace
     },
     requires=[f"forall(lambda w: implies(0 <= w and w < {W}, has(workers_curr_step, w)))"],
     loops={0: dict(inv=[f"nev() == 2 + _i", "evk(0) == 'externalize' and eva(0, 1, 'bool') and evk(1) == 'on_task_finished' and eva(1, 1, 'any') == eva(0, 0, 'any')",
@@ -126,6 +127,8 @@ JOINPOINT = dict(
         # ... and EXACTLY ONE of: the race is complete (reported once, no worker is driven on) or every worker gets exactly one Drive after race control was told
         f"implies({LAST} and self.current_step == self.number_of_steps, exists(lambda q: 0 <= q and q < nev() and evk(q) == 'on_benchmark_complete' "
         "and forall(lambda r: implies(0 <= r and r < nev() and r != q, evk(r) != 'on_benchmark_complete' and evk(r) != 'drive_at' and evk(r) != 'on_task_finished'))))",
+        # the samples of the finished step are post-processed FIRST, whether the race goes on or ends (before results are externalised / the store is closed)
+        f"implies({LAST}, nev() >= 1 and evk(0) == 'post_process')",
         f"implies({LAST} and self.current_step != self.number_of_steps, nev() == 3 + {W} and evk(0) == 'post_process' and evk(1) == 'externalize' and evk(2) == 'on_task_finished' "
         f"and forall(lambda q: implies(0 <= q and q < {W}, evk(3 + q) == 'drive_at' and eva(3 + q, 1, 'any') == self.workers[q])))",
     ],
